@@ -13,7 +13,7 @@ pub static SCENARIO: Scenario = Scenario {
     rule: "misroute-key: an authentic token (any protocol, any issuing layer) is mis-delivered to verifiers identical to the right one except for key material, at the core, generic and batteries entry points (long-lived parser + fresh twin). Local K': single-bit neighbours of K (all 256 per sampled token in the thorough tier, 32 sampled in quick), all-zero, all-one, halves swapped, first/last 16 bytes replaced, random. Public: other pairs of the pool, v3: the sign-flipped compressed point (02<->03) and invalid points, v2/v4: invalid/low-order points. Heal phase: the right key still verifies. Non-trivial = at least one wrong-key delivery; distinct = distinct abstract traces.",
     runs: |t| match t {
         Tier::Quick => 4_000,
-        Tier::Thorough => 40_000,
+        Tier::Thorough => 200_000,
     },
     gen,
     judge: |run, obs| oracle::judge("C04", run, obs),
